@@ -257,6 +257,74 @@ func flushWindows(emit func([]string)) {
 	}
 }
 
+// fills: configurations with MANY blocks per public address (small ports-per-subscriber), one address filled far beyond
+// 64 (and, in the long variants, beyond 128 and 256) live subscribers, a few releases from the middle -- below and above
+// slot 64 -- then more allocations, which must take exactly the freed blocks and then the next fresh ones.
+func fills(r *rand.Rand, tier string, emit func([]string)) {
+	type fc struct {
+		c      cfg
+		blocks int
+	}
+	short := []fc{
+		{cfg{512, 1024, 65535}, 126}, // the usual range with half-size blocks
+		{cfg{256, 1024, 65535}, 252}, // quarter-size blocks
+		{cfg{16, 40000, 42111}, 132}, // a narrow range
+		{cfg{1, 5000, 5199}, 200},    // one port per subscriber
+		{cfg{700, 1, 65535}, 93},     // non-dividing
+		{cfg{1000, 1536, 65535}, 64}, // exactly 64 blocks: the boundary itself
+		{cfg{1000, 536, 65535}, 65},  // 65 blocks
+	}
+	long := []fc{
+		{cfg{256, 1024, 65535}, 252},
+		{cfg{8, 60000, 65535}, 692},
+		{cfg{100, 1024, 65535}, 645},
+	}
+	one := func(f fc, n int, mode string) {
+		seq := []string{newOp(f.c, mode), "addip p1"}
+		if r.Intn(3) == 0 {
+			seq = append(seq, "addip p2") // overflow goes to a second address
+		}
+		for i := 1; i <= n; i++ {
+			seq = append(seq, fmt.Sprintf("alloc k%d", i))
+		}
+		// releases from the middle, on both sides of slot 64
+		rel := 2 + r.Intn(5)
+		for j := 0; j < rel; j++ {
+			seq = append(seq, fmt.Sprintf("dealloc k%d", 1+r.Intn(n)))
+		}
+		if n > 70 {
+			seq = append(seq, fmt.Sprintf("dealloc k%d", 66+r.Intn(n-66)), fmt.Sprintf("dealloc k%d", 1+r.Intn(60)))
+		}
+		more := rel + 2 + r.Intn(6)
+		for j := 1; j <= more; j++ {
+			seq = append(seq, fmt.Sprintf("alloc k%d", n+j))
+		}
+		for _, i := range []int{1, 33, 64, 65, 66, 67, n, n + 1, n + more} {
+			seq = append(seq, fmt.Sprintf("get k%d", i))
+		}
+		emit(append(seq, "count", "pools"))
+	}
+	ms := []string{"bulk", "trad", "off"}
+	for i, f := range short {
+		n := 66 + r.Intn(75) // 66..140 allocations
+		if n > f.blocks+3 {
+			n = f.blocks + 3 // a little beyond full: exhaustion (or spill to p2) is part of the picture
+		}
+		one(f, n, ms[i%3])
+		one(f, 66+r.Intn(10), ms[(i+1)%3])
+	}
+	if tier == "thorough" {
+		for rep := 0; rep < 6; rep++ {
+			for i, f := range short {
+				one(f, 66+r.Intn(75), ms[(i+rep)%3])
+			}
+			for i, f := range long {
+				one(f, 130+r.Intn(f.blocks-125), ms[(i+rep)%3]) // beyond 128, up to beyond 256 / 640
+			}
+		}
+	}
+}
+
 func (comp) Gen(r *rand.Rand, tier string, emit func([]string)) {
 	nShort, nLong := 2500, 40
 	if tier == "thorough" {
@@ -270,6 +338,7 @@ func (comp) Gen(r *rand.Rand, tier string, emit func([]string)) {
 	}
 	windows(emit)
 	flushWindows(emit)
+	fills(r, tier, emit)
 	// truly concurrent callers (no placement): only the final table and the log are observed, judged by the monitor
 	nStress := 40
 	if tier == "thorough" {
